@@ -27,6 +27,8 @@ def registry():
         reg.update(props_c06.PROPS)
         from . import props_c03
         reg.update(props_c03.PROPS)
+        from . import props_c10
+        reg.update(props_c10.PROPS)
     except ImportError:
         pass
     return reg
